@@ -2,7 +2,7 @@
 (* Generator configurations of Pipeline.tla (direction A).  The cfg files choose ChainSet. *)
 EXTENDS Catalog, Randomization
 
-CONSTANTS Vals, MaxSteps, MaxIllegal, Cuts, ChainSetName, SampleN, MaxSubs, FaultSetName, SrcBaseName
+CONSTANTS Vals, MaxSteps, MaxIllegal, Cuts, ChainSetName, SampleN, MaxSubs, FaultSetName, SrcBaseName, NilErr
 
 ValsNeg == {-1, 0, 2}      \* a negative, zero, a positive; both parities; 2 triggers the error-returning callback
 
@@ -23,7 +23,7 @@ FaultSet ==
     [] OTHER -> {[stage |-> 0, at |-> 0, kind |-> "none"]}
 
 VARIABLES chain, sts, phase, srcSub, srcTorn, srcDone, unsub, closed, log, nitems, nillegal, h, fault, nsubs, prev
-P == INSTANCE Pipeline WITH Chains <- ChainSet, Faults <- FaultSet, SrcBase <- (IF SrcBaseName = "hot" THEN {"hot"} ELSE {"sub"})
+P == INSTANCE Pipeline WITH Chains <- ChainSet, Faults <- FaultSet, SrcBase <- (IF SrcBaseName = "hot" THEN {"hot"} ELSE {"sub"}), NilErr <- NilErr
 
 Spec == P!Spec
 Grammar == P!Grammar
